@@ -222,6 +222,10 @@ func (c *syntaxLoader) collectInputs(p ast.ParserSection, header status.SourceNo
 					c.Errorf(name, "input nonterminals cannot have an 'inline' property")
 				}
 				_, noeoi := ref.NoEoi()
+				if slices.ContainsFunc(c.out.Inputs, func(in syntax.Input) bool { return in.Nonterm == nonterm }) {
+					c.Errorf(name, "'%v' is already an input nonterminal", name.Text())
+					continue
+				}
 				c.out.Inputs = append(c.out.Inputs, syntax.Input{Nonterm: nonterm, NoEoi: noeoi})
 			}
 		}
